@@ -52,6 +52,7 @@ def bounds(tier):
     return {"max_nodes": b["n"], "contexts[depth,max_filler_nodes]": b["ctx"],
             "sibling_temporaries": {"fillers": len(_temp_fillers("0", "x")), "combinators": _COMBINATORS, "levels_per_context_depth": b.get("sib_levels")},
             "constructors": sorted(lang.ARITY) + ["return", "raise", "boom", "break", "continue"],
+            "extra_constructors (own family: every term up to the size bound that contains one)": sorted(lang.EXTRA_ARITY),
             "leaves": [l[1] for l in lang.LEAVES], "wrappers": list(lang.WRAPPERS), "pool": list(lang.POOL)}
 
 
@@ -183,7 +184,24 @@ def shards(tier):
         nsib = len(_sib_ctxs(tier, w_fn))
         for lo, hi in enumer.chunk(nsib, 24):
             out.append(["sib", w_fn, 0, lo, hi])
+    for w_fn in (False, True):
+        for n in range(3, b["n"] + 1):
+            for lo, hi in enumer.chunk(len(_xop_terms(n, w_fn)), 8 if n < b["n"] else b["shards"] // 8):
+                out.append(["xop", w_fn, n, lo, hi])
     return out
+
+
+_XOPS = tuple(lang.ARITY) + tuple(lang.EXTRA_ARITY)
+_XOP_CACHE = {}
+
+
+def _xop_terms(n, w_fn):
+    """All terms of exactly n nodes over the default constructors PLUS lang.EXTRA_ARITY that contain at least one of the
+    extra constructors (try with except+else and no finally; cut with a literal upper bound 0 / with a step)."""
+    key = (n, w_fn)
+    if key not in _XOP_CACHE:
+        _XOP_CACHE[key] = [t for t in lang.gen(n, w_fn, False, _XOPS) if any(o in lang.EXTRA_ARITY for o in lang.ops_in(t))]
+    return _XOP_CACHE[key]
 
 
 def _sib_ctxs(tier, w_fn):
@@ -340,6 +358,18 @@ def run_shard(shard, tier):
                 acc.count("op:" + op)
             for w in wrappers:
                 check_case(acc, t, w, record_sample=(idx % 4001 == 7 and w == wrappers[0]))
+    elif kind == "xop":
+        terms = _xop_terms(n, w_fn)
+        for idx in range(lo, hi):
+            t = terms[idx]
+            acc.states += 1
+            if lang.has_lifted_stmt(t):
+                acc.nontrivial += 1
+            for op in lang.ops_in(t):
+                if op in lang.EXTRA_ARITY:
+                    acc.count("op:" + op)
+            for w in wrappers:
+                check_case(acc, t, w, record_sample=(idx % 4001 == 11 and w == wrappers[0]))
     elif kind == "sib":
         paths = _sib_ctxs(tier, w_fn)
         for idx in range(lo, hi):
